@@ -60,6 +60,9 @@ def gen_enum(g, n=None):
     for _ in range(n):
         for _t in range(50):
             lab = g.namer.label()
+            if 'odd_labels' in g.f and rng.random() < 0.03:
+                # labels spelled like the keys the generators' own records use
+                lab = rng.choice(['oid', 'name', 'class', 'type', 'syntax', 'default', 'bits', 'enumeration', 'module'])
             if lab not in labels:
                 break
         v = rng.choice([0, 1, 2, 3, 4, 5, 10, 100, 255, -1, 2 ** 31 - 1, 65536]) if rng.random() < 0.7 \
@@ -82,6 +85,8 @@ def gen_bits(g):
     labels = []
     for p in poss:
         lab = g.namer.label()
+        if 'odd_labels' in g.f and rng.random() < 0.03:
+            lab = rng.choice(['oid', 'name', 'class', 'type', 'syntax', 'default', 'bits', 'enumeration', 'module'])
         if lab in labels:
             continue
         labels.append(lab)
